@@ -100,7 +100,7 @@ class PCTSPReq(PCTSP):
     """the same environment configured with prize_required != 1.0 (0.5 and 1.5):
     generator_params={"prize_required": p} is accepted but mask and checker keep using 1.0"""
     tag = "pctsp_req"
-    reqs = (4, 12)
+    reqs = (0, 4, 12)
 
 
 def _int(v):
